@@ -497,6 +497,7 @@ class Generator:
                 if t.kind == "ident" and t.text == "self":
                     t.text = "__self"
         body = self.rw_macros(body, spec)
+        body = self.relex(text_of(body), body)   # macro arguments become ordinary tokens again
         if spec.valid and spec.opts.get("unwrap", "rt") == "rt":
             body = self.rw_unwrap(body, spec)
         body = self.rw_ptr_swap(body, spec)
@@ -621,7 +622,6 @@ class Generator:
     def relex(self, new_text, old_body):
         """Re-lex rewritten text, keeping line numbers relative to the old body start."""
         l0 = old_body[0].line if old_body else 1
-        # leading ws token may start on an earlier line; compute base from first token
         toks = lex(new_text)
         for t in toks:
             t.line = t.line - 1 + l0
